@@ -318,6 +318,8 @@ def assign_iterable(lhs, rhs, other, ctx):
         lhs[rhs] = other
         return vy_sum(lhs, ctx=ctx)
     else:
+        # never write into the argument: other references may see it
+        lhs = deep_copy(lhs) if isinstance(lhs, LazyList) else list(lhs)
         lhs[rhs] = other
         return lhs
 
@@ -1286,7 +1288,7 @@ def gen_from_fn(lhs, rhs, ctx):
     def gen():
         yield from lhs
 
-        made = lhs
+        made = list(lhs)
 
         while True:
             next_item = safe_apply(rhs, *made, ctx=ctx)
